@@ -818,6 +818,12 @@ class SecureHomeKitConnection(HomeKitConnection):
                     self._pair_verify_failed_hosts.add(_normalize_host(self.connected_host))
                 self._drop_transport()
                 raise
+            except BaseException:
+                # The secure session could not be established. Close the
+                # connection so it is not leaked when the next attempt
+                # replaces the transport.
+                self._drop_transport()
+                raise
 
         # Secure session has been negotiated - switch protocol so all future messages are encrypted
         self.protocol = SecureHomeKitProtocol(
